@@ -42,7 +42,11 @@ fn main() {
         _ => usage(),
     };
     let mut ctx = Ctx::new(pid, tier);
+    if pid == "C01" {
+        total::start_watchdog(20_000);
+    }
     regress::run(pid);
+    regress::done(pid);
     match pid {
         "C01" => total::run_c01(&ctx),
         "C02" => accept::run_c02(&ctx),
